@@ -213,7 +213,13 @@ func runSession(se session) {
 	}
 	// endless behaviours: the call must have returned before the step bound
 	if n := srv.Repeats.Load(); n >= stepBound {
-		emit("V", vio{Key: "endless-server-behaviour-followed/" + mutKinds(se), What: fmt.Sprintf("the client followed %d repetitions of an endless server behaviour before its call returned (bound %d)", n, stepBound), Session: se})
+		kind := "other"
+		for _, m := range se.Muts {
+			if m.Kind == "redirect-loop" || m.Kind == "auth-loop" {
+				kind = m.Method + ":" + m.Kind
+			}
+		}
+		emit("V", vio{Key: "endless-server-behaviour-followed/" + kind, What: fmt.Sprintf("the client followed %d repetitions of an endless server behaviour before its call returned (bound %d)", n, stepBound), Session: se})
 	}
 	if started {
 		if failed {
